@@ -958,6 +958,13 @@ theorem isPrefix_append_right {α} {a b : List α} (c : List α) (h : IsPrefix a
   obtain ⟨t, ht⟩ := h
   exact ⟨t ++ c, by rw [← List.append_assoc, ht]⟩
 
+/-- the order in the code, translated from `LasWriter.write_points` and `LasAppender.append_points` (`Gen.Order`): both count
+    the points (`header.grow`) after the destination has taken them. It is the premise under which the header written when a
+    session is closed after a failed write advertises only completely written chunks (`newRecs` below does not include the
+    records of the failed write; `n` in `C19_writer_crash_torn` counts the chunks written completely). -/
+theorem C19_count_after_write :
+    Gen.Order.writerCountsAfterWrite = true ∧ Gen.Order.appenderCountsAfterWrite = true := by decide
+
 /-- **C19, every crash point of an append session, also one in which a write failed.** The file holds a
     header `h` advertising the records `oldRecs`, followed by anything (`T`: its EVLRs). The session writes
     the new chunks over what follows the old records - `newRecs` completely, then possibly `torn`, the bytes
@@ -1183,5 +1190,20 @@ example (k : Nat) :
         rcases hr with hr | hr
         · rw [hr.2]; rfl
         · rw [hr]; rfl) k
+
+/-- non-vacuity of `C19_writer_crash_torn`: a writer session that stored two records completely and 7 bytes of a third one
+    whose write failed, then was closed with a header advertising the two: every hypothesis is met -/
+example (k : Nat) :
+    let recs : List Rec := List.replicate 3 (List.replicate 20 4)
+    let img := image [] (writerLog (encForm (exHdr 0) []) [(recs.take 2).flatten, (List.replicate 7 4)] []
+      (encForm (C07.withStats (exHdr 0) 2 (List.replicate 15 0) (List.replicate 12 0) 0 0) [])) k
+    (∃ e, readFile img = .error e) ∨ (∃ r, readFile img = .ok r ∧ IsPrefix r.records recs) := by
+  intro recs
+  have hw' : (C07.withStats (exHdr 0) 2 (List.replicate 15 0) (List.replicate 12 0) 0 0).WF := by
+    have : C07.withStats (exHdr 0) 2 (List.replicate 15 0) (List.replicate 12 0) 0 0 = exHdr 2 := rfl
+    rw [this]; exact exHdr_wf 2 (by decide)
+  exact C19_writer_crash_torn (exHdr 0) (exHdr_wf 0 (by decide)) rfl [] (List.replicate 15 0) (List.replicate 12 0) 0 0 recs 2 (by decide) hw'
+    (by decide) [(recs.take 2).flatten, (List.replicate 7 4)] 47 (by decide) (by decide)
+    (by intro r hr; simp only [recs, List.mem_replicate] at hr; rw [hr.2]; rfl) k
 
 end LasModel.Props.C19
